@@ -605,3 +605,161 @@ func runRec(c *core.Ctx) []core.Obligation {
 	}
 	return b.out
 }
+
+// R-MEMOKEY — the type compilers terminate on recursive types: every cycle among the functions
+// that compile a type (those threading the memo map) passes through a function that consults the
+// memo before recursing.
+func init() {
+	Register(&Rule{
+		ID:    "R-MEMOKEY",
+		Doc:   "static call graph restricted to the type-compiler functions of each package (functions with a map[reflect.Type]/memo parameter): after removing the functions that look the type up in the memo and return the memoised codec, no cycle remains — otherwise a recursive type that reaches the cycle (type T []T, type M map[string]M) recurses until the stack overflows while its codec is built",
+		Props: []string{"C06", "C03", "C04"},
+		Min:   map[string]int{"C06": 1, "C03": 1, "C04": 1},
+		Run:   runMemoKey,
+	})
+}
+
+func memoParam(fn *ssa.Function) *ssa.Parameter {
+	for _, p := range fn.Params {
+		if m, ok := p.Type().Underlying().(*types.Map); ok {
+			k := types.TypeString(m.Key(), nil)
+			if k == "reflect.Type" || strings.HasSuffix(k, "structTypeKey") {
+				return p
+			}
+		}
+	}
+	return nil
+}
+
+// cutsRecursion: the function records the type in the memo before every call back into the type
+// compiler (a lookup alone, with the memo filled in after the recursion returns, cuts nothing).
+func cutsRecursion(fn *ssa.Function, in map[*ssa.Function]bool) bool {
+	mp := memoParam(fn)
+	if mp == nil {
+		return false
+	}
+	var updates []ssa.Instruction
+	for _, blk := range fn.Blocks {
+		for _, ins := range blk.Instrs {
+			if mu, ok := ins.(*ssa.MapUpdate); ok && mu.Map == ssa.Value(mp) {
+				updates = append(updates, mu)
+			}
+		}
+	}
+	if len(updates) == 0 {
+		return false
+	}
+	for _, ci := range callsIn(fn) {
+		callee := staticCallee(ci.Common())
+		if callee == nil || !in[callee] {
+			continue
+		}
+		dominated := false
+		for _, u := range updates {
+			if instrDominates(u, ci) {
+				dominated = true
+			}
+		}
+		if !dominated {
+			return false
+		}
+	}
+	return true
+}
+
+func runMemoKey(c *core.Ctx) []core.Obligation {
+	b := newOb(c, "R-MEMOKEY")
+	for _, spec := range []struct {
+		pkg   string
+		props []string
+	}{{"json", []string{"C06"}}, {"proto", []string{"C03"}}, {"thrift", []string{"C04"}}} {
+		var nodes []*ssa.Function
+		in := map[*ssa.Function]bool{}
+		for _, fn := range c.RepoFunctions() {
+			if fn.Blocks == nil || fn.Synthetic != "" || !strings.HasPrefix(shortName(fn), spec.pkg+".") || memoParam(fn) == nil {
+				continue
+			}
+			nodes = append(nodes, fn)
+			in[fn] = true
+		}
+		sort.Slice(nodes, func(i, j int) bool { return shortName(nodes[i]) < shortName(nodes[j]) })
+		key := "memo:" + spec.pkg
+		if len(nodes) == 0 {
+			b.addP(spec.props, core.Undecided, key, "-", "no type-compiler function with a memo parameter found")
+			continue
+		}
+		succAll := func(fn *ssa.Function) []*ssa.Function {
+			var out []*ssa.Function
+			// calls made where the kind is known to be Ptr only descend through pointer types:
+			// the only recursive type that stays on such edges is type P *P, which has no value
+			// other than nil chains and is not an encodable shape
+			ptrOnly := map[*ssa.BasicBlock]bool{}
+			for _, blk := range fn.Blocks {
+				for _, ins := range blk.Instrs {
+					if v, ok := ins.(ssa.Value); ok && isKindValue(v) {
+						if _, isCall := ins.(*ssa.Call); isCall {
+							for bb, set := range kindFlow(fn, v) {
+								if set == 1<<22 {
+									ptrOnly[bb] = true
+								}
+							}
+						}
+					}
+				}
+			}
+			for _, ci := range callsIn(fn) {
+				if ptrOnly[ci.Block()] {
+					continue
+				}
+				if callee := staticCallee(ci.Common()); callee != nil && in[callee] {
+					out = append(out, callee)
+				}
+			}
+			return out
+		}
+		rest := map[*ssa.Function]bool{}
+		var restNodes []*ssa.Function
+		memoised := 0
+		for _, fn := range nodes {
+			if cutsRecursion(fn, in) {
+				memoised++
+				continue
+			}
+			rest[fn] = true
+			restNodes = append(restNodes, fn)
+		}
+		restSucc := func(fn *ssa.Function) []*ssa.Function {
+			var out []*ssa.Function
+			for _, s := range succAll(fn) {
+				if rest[s] {
+					out = append(out, s)
+				}
+			}
+			return out
+		}
+		var cyc []string
+		for _, comp := range sccs(restNodes, restSucc) {
+			cyclic := len(comp) > 1
+			if !cyclic {
+				for _, s := range restSucc(comp[0]) {
+					if s == comp[0] {
+						cyclic = true
+					}
+				}
+			}
+			if cyclic {
+				for _, fn := range comp {
+					cyc = append(cyc, shortName(fn))
+				}
+			}
+		}
+		sort.Strings(cyc)
+		if len(cyc) == 0 {
+			b.addP(spec.props, core.Discharged, key, c.FuncPos(nodes[0]), fmt.Sprintf("%d type-compiler functions, %d record the type in the memo before recursing; every cycle passes through one of them", len(nodes), memoised))
+		}
+		for _, name := range cyc {
+			b.addP(spec.props, core.Violation, key+":"+name, c.FuncPos(c.Lookup(name)), fmt.Sprintf("%s is on a cycle of the type compiler %v that recurses without recording the type in the memo first: a recursive type that reaches it without passing through a memoised kind (type T []T, type M map[string]M) recurses until the stack overflows the first time it is encoded or decoded", name, cyc))
+		}
+	}
+	return b.out
+}
